@@ -262,6 +262,46 @@ PROPS.update({
     },
 })
 
+PROPS.update({
+    "C04": {
+        "tests": "^TestC04_",
+        "quick": {"scale": 2.0, "timeout": 900},
+        "thorough": {"scale": 25.0, "shards": 16, "timeout": 1800},
+        "rule": "rapid: (a) keys of all five types from the pool or from drawn scalars/seeds, with or without a nonce of 1/8/16/32 "
+                "bytes, both hash algorithms: reveal value, commitment and commitment-from-reveal-value compared with refHash / "
+                "hash-of-hash over the harness' own JWK encoding; a second JWK differing in exactly one member (nonce, nonce presence, x, "
+                "y, crv, kty) must have another commitment and reveal value. (b) well-formed chains create -> (update|recover)* -> "
+                "deactivate of 2-10 hand-assembled operations under multihash lists [18,19],[19,18],[18],[19], each operation free to use "
+                "any configured algorithm for its own hashes while its reveal value answers the predecessor's commitment: "
+                "GetCommitmentFromRevealValue(parser.GetRevealValue(op)) must equal the commitment the parser reported for the predecessor "
+                "on the same chain (parsed create model, GetCommitment of update/recover, recover's delta commitment for recover->update); "
+                "GetCommitment(deactivate) empty; create has neither. Non-trivial: key with nonce or empty y; chain with >= 1 update->update "
+                "and >= 1 recover link; distinct by content.",
+        "technique": "property-based testing (rapid): independent hash reference for the algebra, invariant over generated operation chains for the linkage",
+        "level_text": "Randomised exploration against an independent reference and over generated well-formed chains.",
+        "level_note": "Trusts refHash/refJCS and the harness request builder.",
+        "assumptions": ["the canonical JWK is the library's signed-data key model: crv, kty, x, y always present (y empty for OKP), nonce when set"],
+    },
+    "C08": {
+        "tests": "^TestC08_",
+        "quick": {"scale": 1.0, "timeout": 900},
+        "thorough": {"scale": 10.0, "shards": 16, "timeout": 1800},
+        "rule": "rapid lifecycles create -> update* -> recover -> update* -> deactivate built (a) with client.New*Request from patch "
+                "constructors or an opaque document and (b) through sidetree.Client (request bytes captured by the request function); keys of "
+                "all five types (nonces in (a)), library signers with/without kid, both hash algorithms, optional anchor origin and anchoring "
+                "window, document keys of four types with 1-5 purposes as JWK or base58, services with string / list / extra members, "
+                "also-known-as; updates with remove/add overlaps on the same ids. Oracle: every request parses non-batch under the matching "
+                "protocol; the anchored form is refJCS of the request with the same suffix/type/anchor origin and applies to the same state; "
+                "the fold yields refCompose's document, refHash commitments of the next keys and the deactivated flag; builders refuse equal "
+                "commitments, commitments of another or an unsupported algorithm and re-use of the signing key. Non-trivial: lifecycle with "
+                "an update removing and adding the same id and a recover that changes key type; distinct by (create request, lifecycle).",
+        "technique": "property-based testing (rapid): generated client lifecycles checked against parser, applier and the reference composer; by-construction refusals",
+        "level_text": "Randomised exploration of client-built lifecycles.",
+        "level_note": "Trusts refCompose/refHash and did-go / kms-go data types used to feed the client.",
+        "assumptions": ["client keys always carry >= 1 purpose (the client's key model always emits a purposes member)", "'builders refuse' is asserted for: equal commitments, commitment of another/unsupported algorithm (create), next commitment = signing key (update, recover)"],
+    },
+})
+
 NOT_APPLICABLE = {p: "check not built yet (work in progress; this entry is temporary)" for p in
                   ["C%02d" % i for i in range(1, 21)]}
 HOOK_COMMITS = []
